@@ -156,14 +156,18 @@ func runSeeded(p *Prop, r *core.Report) {
 	for _, dir := range seedDirs() {
 		m := readSeedMeta(dir)
 		mine := m.Property == p.ID
+		listed := false
 		for _, c := range m.Catches {
 			if c == p.ID {
-				mine = true
+				mine, listed = true, true
 			}
 		}
 		if !mine {
 			continue
 		}
+		// a change that breaks this property but is recorded (detected_by) as caught by
+		// the rules of ANOTHER property that shares the mechanism: evaluated, not required here
+		elsewhere := len(m.Catches) > 0 && !listed
 		name := filepath.Base(dir)
 		expectMiss := false
 		if b, err := os.ReadFile(filepath.Join(dir, "EXPECT_MISS")); err == nil && len(b) > 0 {
@@ -179,6 +183,8 @@ func runSeeded(p *Prop, r *core.Report) {
 			r.Ok("seeded-fault", name, "-", "seeded change is reported: "+core.Trim(strings.Join(vs, " ; "), 200))
 		case expectMiss:
 			r.Mutants = append(r.Mutants, core.MutantResult{Name: name, Killed: false, Note: "out of reach of the static rules (documented in DESIGN.md)"})
+		case elsewhere:
+			r.Mutants = append(r.Mutants, core.MutantResult{Name: name, Killed: false, Note: "reported by the rules of " + strings.Join(m.Catches, ", ") + " (shared mechanism), whose thorough tier requires it"})
 		default:
 			r.Mutants = append(r.Mutants, core.MutantResult{Name: name, Killed: false})
 			r.Bad("seeded-fault", name, "not-detected", "-", "the check stays silent on a seeded change it is recorded to detect (rule vacuous?)")
